@@ -394,6 +394,7 @@ WHAT = dict(
     MalformedStuck='after a malformed datagram the dispatch clock stopped', MalformedFired='a malformed datagram invoked a responder',
     CallbackRaised='an exception raised by a responder\'s callback reached the receiver',
     CallbackStuck='after a callback raised the dispatch clock stopped', CallbackHang='the receiver hung',
+    Flood='one message invoked more than 300 callbacks', CallbackFlood='one message invoked more than 300 callbacks',
     Hang='the receiver hung', Raised='an exception escaped into the receiver', Stuck='the dispatch clock stopped',
     FreedNeverFires='a freed responder was invoked', DisabledNeverFires='a disabled responder was invoked',
     EachOnce='a responder was invoked more than once for one message', ShouldNotFire='a responder was invoked that should not fire',
